@@ -46,7 +46,7 @@ STD = ['std Vec/VecDeque/BinaryHeap/HashSet/HashMap behave as documented', 'payl
 
 PROPS['C01'] = dict(
     rules=[_r('P1', re_.p1_connect, DIRECTED), _r('P2', re_.p2_disconnect_directed, DIRECTED), _r('P3', re_.p3_isolate, DIRECTED),
-           _r('RM1', re_.rm1_first_match, DIRECTED), _r('SYM', re_.sym, DIRECTED), _r('ENC', re_.enc, DIRECTED), _r('OBS', re_.obs, DIRECTED),
+           _r('RM1', re_.rm1_first_match, DIRECTED), _r('SYM', re_.sym, DIRECTED), _r('ENC', re_.enc, DIRECTED), _r('OBS', re_.obs, DIRECTED), _r('OBS-Q', re_.obs_q, DIRECTED),
            _r('IT2', rg.it2, DIRECTED), _r('ORIENT', re_.orient, DIRECTED), _r('ADJ-PRIM', re_.adj_prim, DIRECTED), _r('T1', re_.t1_try_connect, DIRECTED)],
     explanation='Induction premises for the mirror invariant of the directed flavours: the invariant holds for Adjacent::new (two empty Vecs, ENC-new), is preserved by each of the '
                 'three mutators (P1 connect pushes the pair, P2 disconnect removes the pair keyed by each other, P3 isolate removes every mirror entry then clears), removals are '
@@ -57,7 +57,7 @@ PROPS['C01'] = dict(
 )
 PROPS['C02'] = dict(
     rules=[_r('P1', re_.p1_connect, UNDIRECTED), _r('P2u', re_.p2_disconnect_undirected, UNDIRECTED), _r('P3', re_.p3_isolate, UNDIRECTED),
-           _r('RM1', re_.rm1_first_match, UNDIRECTED), _r('SYM', re_.sym, UNDIRECTED), _r('ENC', re_.enc, UNDIRECTED), _r('OBS', re_.obs, UNDIRECTED),
+           _r('RM1', re_.rm1_first_match, UNDIRECTED), _r('SYM', re_.sym, UNDIRECTED), _r('ENC', re_.enc, UNDIRECTED), _r('OBS', re_.obs, UNDIRECTED), _r('OBS-Q', re_.obs_q, UNDIRECTED),
            _r('GET-ADJ', re_.get_adj, UNDIRECTED), _r('IT2', rg.it2, UNDIRECTED), _r('ORIENT', re_.orient, UNDIRECTED), _r('ADJ-PRIM', re_.adj_prim, UNDIRECTED), _r('T1', re_.t1_try_connect, UNDIRECTED)],
     explanation='Same scheme for the undirected flavours: every edge is two half-edges (owner OUT list, partner IN list); connect pushes both halves, disconnect removes one half at '
                 'the caller and the complementary half at the peer (P2u), isolate removes the partner half at every neighbour (P3), the adjacency view is OUT ++ IN with the exact '
@@ -69,7 +69,7 @@ PROPS['C02'] = dict(
 PROPS['C03'] = dict(
     rules=[_r('P1', re_.p1_connect, FLAVOURS), _r('P2', re_.p2_disconnect_directed, DIRECTED), _r('P2u', re_.p2_disconnect_undirected, UNDIRECTED), _r('P3', re_.p3_isolate, FLAVOURS),
            _r('T1', re_.t1_try_connect, FLAVOURS), _r('T2', re_.t2_disconnect_result, FLAVOURS), _r('RM1', re_.rm1_first_match, FLAVOURS),
-           _r('ENC', re_.enc, FLAVOURS), _r('G3', rg.g3, FLAVOURS), _r('GET-ADJ', re_.get_adj, UNDIRECTED), _r('ADJ-PRIM', re_.adj_prim, FLAVOURS)],
+           _r('ENC', re_.enc, FLAVOURS), _r('G3', rg.g3, FLAVOURS), _r('GET-ADJ', re_.get_adj, UNDIRECTED), _r('ADJ-PRIM', re_.adj_prim, FLAVOURS), _r('OBS', re_.obs, FLAVOURS), _r('OBS-Q', re_.obs_q, FLAVOURS)],
     explanation='Multigraph contract of the four edge operations on all four flavours: exactly-one-edge effects (P1/P2/P3), try_connect guarded by the existence query with the right '
                 'footprint (T1), disconnect result/error set (T2), order-preserving list operations only (ENC-b: push/remove/clear; RM1 first match), one allocation per node so any '
                 'handle is the same node (ENC-d), and no conflicting re-acquisition of a node cell anywhere (G3: no RefCell double borrow panic / RwLock self-deadlock, with every pair of '
